@@ -90,7 +90,10 @@ func c08asserts(c *Ctx, pkg string) {
 		sites += n
 	}
 	c.R.Extra["C08.R6_assert_events"] = sites
-	c.R.Min(rule, 2, "functions with single-value type assertions (setMatchedPrimitiveValue, processFieldNotFromString, …)")
+	nf := len(c.P.AllFuncs(pkg))
+	o := c.R.Check(nf >= 100, rule, pkg+"#scan", "all functions of the package were scanned for single-value type assertions", "-", fmt.Sprintf("only %d functions found", nf), nil, 0)
+	o.Sites = nf
+	c.R.Min(rule, 2, "package scan + setMatchedPrimitiveValue")
 }
 
 func inlineNamed(names ...string) func(ci *px.CallInfo, d int) bool {
